@@ -91,6 +91,17 @@ def mutable_fields(prog, T):
                         for tt in (t.elts if isinstance(t, ast.Tuple) else [t]):
                             if isinstance(tt, ast.Attribute) and isinstance(tt.value, ast.Name) and tt.value.id == "self":
                                 stores.append((tt.attr, n.lineno))
+                            # item store into a collection field: self.F[k] = v
+                            if isinstance(tt, ast.Subscript) and isinstance(tt.value, ast.Attribute) and isinstance(tt.value.value, ast.Name) \
+                                    and tt.value.value.id == "self":
+                                stores.append((tt.value.attr, n.lineno))
+                # in-place growth / shrinkage of a collection field: self.F.append(x) ... (the field keeps its identity, its content
+                # changes: a value memoised from it goes stale just the same)
+                if isinstance(n, ast.Call) and isinstance(n.func, ast.Attribute) and n.func.attr in (
+                        "append", "extend", "insert", "pop", "remove", "clear", "update", "add", "discard", "setdefault", "sort", "reverse") \
+                        and isinstance(n.func.value, ast.Attribute) and isinstance(n.func.value.value, ast.Name) and n.func.value.value.id == "self" \
+                        and n.func.value.attr.startswith("_") and _is_container_field(prog, c, n.func.value.attr):
+                    stores.append((n.func.value.attr, n.lineno))
             if not stores:
                 continue
             if f.kind == "setter":
@@ -102,6 +113,20 @@ def mutable_fields(prog, T):
             for name, ln in stores:
                 out.setdefault((c, name), []).append((f, ln, recv))
     return out
+
+
+def _is_container_field(prog, c, field):
+    """the field is created in a constructor of the class (or a base) as a Python list / dict / set (not an XML element)"""
+    for k in prog.mro(c):
+        init = getattr(k, "methods", {}).get("__init__")
+        for n in ast.walk(init.node) if init is not None else []:
+            if isinstance(n, ast.Assign) and any(isinstance(t, ast.Attribute) and t.attr == field and dotted(t.value) == "self" for t in n.targets):
+                v = n.value
+                if isinstance(v, (ast.List, ast.Dict, ast.Set, ast.ListComp, ast.DictComp, ast.SetComp)):
+                    return True
+                if isinstance(v, ast.Call) and (dotted(v.func) or "").split(".")[-1] in ("list", "dict", "set", "OrderedDict", "defaultdict", "deque"):
+                    return True
+    return False
 
 
 def setter_receivers(prog, T, c, f):
